@@ -12,7 +12,9 @@ twins
   reformat     every .py file is re-emitted with ast.unparse (comments gone, layout and quoting normalised)
   rename       every function-local variable (not parameters, not closure-captured) gets the suffix _tw
   reorder      consecutive independent simple assignments of literals at function start are reversed
-  docstrings   a module docstring and a comment line are added to every file, blank lines doubled
+  docstrings   a comment line is added at the top and bottom of every file
+  <name>       every selftest/twin_patches/<name>.diff: a hand-written behaviour-preserving rewrite of one mechanism
+               (nested abort guard, reset by handler+re-raise, counter write loop, seen-set as dict, ...)
 """
 import ast
 import json
@@ -146,6 +148,21 @@ def t_docstrings(root):
 
 
 TWINS = {'reformat': t_reformat, 'rename': t_rename, 'reorder': t_reorder, 'docstrings': t_docstrings}
+
+
+def _patch_twin(path):
+    def apply(root):
+        p = subprocess.run(['patch', '-p1', '--fuzz=3', '-s', '--no-backup-if-mismatch', '-i', path], cwd=root,
+                           capture_output=True, text=True)
+        if p.returncode != 0:
+            raise SystemExit('twin patch does not apply: %s\n%s' % (path, p.stdout + p.stderr))
+    return apply
+
+
+_pd = os.path.join(HERE, 'selftest', 'twin_patches')
+for _f in sorted(os.listdir(_pd)) if os.path.isdir(_pd) else []:
+    if _f.endswith('.diff'):
+        TWINS[_f[:-5]] = _patch_twin(os.path.join(_pd, _f))
 
 
 def scratch():
